@@ -99,6 +99,42 @@ def eval_case(item):
     return None
 
 
+def inprocess_history(_=None):
+    """Several invocations of main() in ONE interpreter (editor plugins, batch drivers, test harnesses do this), each with
+    its own stdin: every one must answer like the library on its own input - nothing may be carried from one to the next."""
+    import contextlib
+    import io
+
+    from nix_manipulator.cli.main import main
+
+    seq = [("canonical", ("test",)), ("erroneous", ("test",)), ("non-canonical", ("test",)), ("canonical", ("set", "a", "2")),
+           ("let", ("rm", "a")), ("erroneous", ("set", "a", "2")), ("canonical", ("test",)), ("unicode", ("set", "a", "2"))]
+    bad = []
+    old_stdin = sys.stdin
+    try:
+        for k, (tname, cmd) in enumerate(seq):
+            text = TEXTS[tname]
+            sys.stdin = io.StringIO(text)
+            out = io.StringIO()
+            try:
+                with contextlib.redirect_stdout(out), contextlib.redirect_stderr(io.StringIO()):
+                    rc = main(list(cmd))
+            except SystemExit as e:
+                rc = e.code if isinstance(e.code, int) else 1
+            except Exception as e:
+                rc = f"raises:{type(e).__name__}"
+            exp_out, exp_rc = library(cmd, text)
+            got = out.getvalue()
+            if exp_rc == "nonzero":
+                if rc == 0 or got != "":
+                    bad.append(f"step{k}:{' '.join(cmd)} on {tname}: exit {rc}, stdout {got!r} (the library refuses)")
+            elif rc != exp_rc or got != exp_out:
+                bad.append(f"step{k}:{' '.join(cmd)} on {tname}: exit {rc}, stdout {got!r}; the library gives exit {exp_rc}, {exp_out!r}")
+    finally:
+        sys.stdin = old_stdin
+    return bad
+
+
 def run(tier, seed):
     t0 = time.time()
     items = [(t, c, ch) for t in TEXTS for c in COMMANDS for ch in ("stdin", "file")]
@@ -106,7 +142,13 @@ def run(tier, seed):
         items = [it for i, it in enumerate(items) if it[2] == "file" or it[0] in ("canonical", "erroneous", "empty")]
     with mp.get_context("fork").Pool(16) as pool:
         res = pool.map(eval_case, items, chunksize=2)
+        hist = pool.apply(inprocess_history)
     vio = []
+    if hist:
+        vio.append(dict(check="cli-history", signature="in-process-invocations-influence-each-other",
+                        what="C16 main() called several times in one interpreter, each with its own stdin: " + "; ".join(hist[:3]), has_input=True,
+                        inputs={"history": True},
+                        failing_input={"inputs": {"sequence": "see bounded/b_c16.py:inprocess_history"}, "observed": hist[:5], "origin": "in-process run"}))
     for it, sym in zip(items, res):
         if sym:
             sig = f"{sym}|{' '.join(it[1])}|{it[0]}|{it[2]}"
@@ -117,8 +159,8 @@ def run(tier, seed):
                             inputs={"text": TEXTS[it[0]], "cmd": list(it[1]), "channel": it[2], "tname": it[0]},
                             failing_input={"inputs": {"text": TEXTS[it[0]], "cmd": list(it[1]), "channel": it[2]}, "observed": sym,
                                            "origin": "subprocess run"}))
-    return dict(evaluations=len(items), distinct_nontrivial=len(items),
-                rule=f"{len(TEXTS)} input texts (canonical, non-canonical, erroneous, empty, ...) x {len(COMMANDS)} command lines (succeeding and "
+    return dict(evaluations=len(items) + 8, distinct_nontrivial=len(items) + 8,
+                rule=f"(plus one history of 8 in-process main() calls with their own stdin) {len(TEXTS)} input texts (canonical, non-canonical, erroneous, empty, ...) x {len(COMMANDS)} command lines (succeeding and "
                      "failing set/rm/test, unknown command, none) x input channel (stdin, -f FILE), run as `python -m nix_manipulator` and compared with the in-process library result",
                 samples=[dict(cmd=list(i[1]), text=TEXTS[i[0]], channel=i[2]) for i in items[:3]], exhaustive=True, violations=vio,
                 seconds=time.time() - t0)
@@ -126,6 +168,13 @@ def run(tier, seed):
 
 def replay(v):
     i = v["inputs"]
+    if i.get("history"):
+        bad = inprocess_history()
+        print(bad)
+        if bad:
+            print("VIOLATION property=C16 replay=<given>")
+            return 1
+        return 0
     sym = eval_case((i["tname"], tuple(i["cmd"]), i["channel"]))
     print(i, "->", sym)
     if sym:
